@@ -11,6 +11,9 @@ CLAIMED = {
  "C02": ("E1 breadth-first history exploration with heap-graph deduplication + E2 products",
          "all histories of <= 5 (quick) / <= 7 (thorough, wall-capped) operations from 56 alias-shape operations on a, b, c (a container stored in itself / in its comparand / on both sides of an operator, element += with the container itself, range assignment / spread / collect / destructuring of a container into itself, loops that overwrite what they iterate, print and == / != / === against itself and wrappers of itself, a function mutating one parameter and comparing it with the other), merged on the isomorphism class of the reference heap graph (cycles included); 16 operators x 24^2 ordered operand pairs over aliased and cyclic shapes, op-assign and plain assignment x 9 places x 24 operands, 13 contexts x 24 operands; integer boundary pairs, multi-byte text around slots, out-of-range slices; oracle = the run ends by completion or reported diagnostic (never panic / signal / hang), and equals the reference output wherever no self-containing container is traversed",
          "explicit-state breadth-first exploration with canonical-state deduplication on the real interpreter; crash oracle"),
+ "C03": ("E2 product + E3 deviation-bounded exploration",
+         "all strings of length 0..4 (thorough 5) over a 28-character alphabet (every character class of the scanner, every first character of a multi-character symbol, one multi-byte character), each run bare and after a first statement that prints; k = 1 deviations of a corpus of ~440 programs (truncation at every byte offset, deletion and duplication of every character, insertion / replacement by each of 12 (thorough 28) characters, deletion / duplication / swap of adjacent tokens), parsed with the real front end (hook ast) and run when rejected; 1- and 2-byte invalid UTF-8 sequences at every offset of short scripts through the CLI; oracle = clean-rejection contract (no panic / hang; a rejected file prints nothing and reports one located diagnostic with line <= lines + 1; a read error for non-UTF-8) and agreement with the reference front end on whether the text is a program",
+         "exhaustive enumeration of all short inputs and all single-edit deviations of a corpus on the real front end against a contract and a reference front end"),
  "C04": ("E1 breadth-first history exploration",
          "all well-formed histories of <= 6 (quick) / <= 8 (thorough, wall-capped) scope operations from 16 operations (x := k, x = k, print(x), open block / fn f / fn g / while / for, close, f(), g(), return a closure that reads and writes x, h = f(), h(), h = closure, guarded recursion); each program is completed by reading x at every open level and calling what was defined; dead states are not expanded; oracle = reference interpreter with linked environments (stdout and termination class); vacuity guards: closure outlives its scope, late declaration seen by an earlier function, recursion, per-iteration redeclaration",
          "explicit-state breadth-first exploration of operation histories on the real interpreter against a reference model"),
